@@ -13,9 +13,9 @@ Off(l) == IF l = "A" THEN 0 ELSE S["A"].orb * S["A"].spin
 Ix(l, o, s) == Off(l) + o * S[l].spin + s
 NModes == S["A"].orb * S["A"].spin + S["B"].orb * S["B"].spin
 Calls ==
-  {<<"addCoulombS", l, u, e>> : l \in {"A", "B"}, u \in {4, -8}, e \in {0, 4}} \cup
-  {<<"addCoulombP", l, u, up, j, e>> : l \in {"A"}, u \in {8}, up \in {4, 12}, j \in {0, 4}, e \in {0, 4}} \cup
-  {<<"addCoulombP3", l, u, j, e>> : l \in {"A"}, u \in {12}, j \in {4, -4}, e \in {-8}} \cup
+  {<<"addCoulombS", l, u, e>> : l \in {"A", "B"}, u \in {4, -8, 0}, e \in {0, 4}} \cup
+  {<<"addCoulombP", l, u, up, j, e>> : l \in {"A"}, u \in {8, 0}, up \in {4, 12, 0}, j \in {0, 4}, e \in {0, 4}} \cup
+  {<<"addCoulombP3", l, u, j, e>> : l \in {"A"}, u \in {12, 8}, j \in {4, -4}, e \in {-8}} \cup
   {<<"addLevel", l, e>> : l \in {"A", "B"}, e \in {4, -8}} \cup
   {<<"addMagnetization", l, e>> : l \in {"A", "B"}, e \in {4, -8}} \cup
   {<<"addSzSz", l1, l2, j>> : l1 \in {"A", "B"}, l2 \in {"A", "B"}, j \in {4, -8}} \cup
